@@ -10,15 +10,41 @@ Open Scope Z_scope.
 (** Every administration endpoint (mint, burn, withdraw, finalize, activate, cancel, delete, add /
     delete access, denom metadata, account data, deny list, required attributes, fee allowance,
     net asset values), for EVERY marker status, type, set of rights of the caller (any bit mask,
-    not only the 256 meaningful ones), manager / governance / governance-control / supply flags:
-    when the code performs the operation, the caller holds a right the documentation names for
-    that endpoint in that status, or meets a documented alternative (manager before activation,
-    governance account on a marker under governance control, holder of the entire non-empty
-    supply for access changes). *)
+    not only the 256 meaningful ones), manager / governance / governance-control / supply flags
+    and activation history satisfying the lifecycle invariant [cfg_wfb] (an activated marker has no
+    manager; see [C12_manager_gone_after_activation]): when the code performs the operation, the
+    caller holds a right the documentation names for that endpoint in the marker's CURRENT status,
+    or meets a documented alternative (manager of a marker that has never been active, governance
+    account on a marker under governance control, holder of the entire non-empty supply for access
+    changes). *)
 Theorem C12_op_needs_documented_right : forall c o,
+  cfg_wfb c = true ->
   decide c o = Done -> req_met c (documented o (c_status c) (c_type c)) = true.
 Proof. exact decide_documented. Qed.
 Print Assumptions C12_op_needs_documented_right.
+
+(** Over EVERY history of status transitions (finalize, activate, cancel, delete by authorised
+    callers, and governance ChangeStatus to any status, e.g. Proposed -> Active directly), starting
+    from any state satisfying the invariant (a new marker: proposed / finalized with a manager,
+    or created active without one): a marker that is or has been active has no manager. *)
+Theorem C12_manager_gone_after_activation : forall ops l,
+  life_wfb l = true -> life_wfb (life_run l ops) = true.
+Proof. exact life_run_wf. Qed.
+Print Assumptions C12_manager_gone_after_activation.
+
+(** Both halves are needed: a SetStatus that clears the manager only on Finalized -> Active loses
+    the invariant through the governance route, and a manager surviving activation would set denom
+    metadata on an active marker (and delete a cancelled one) without holding any right. *)
+Theorem C12_manager_cleared_only_from_finalized_refuted : exists l ops,
+  life_wfb l = true /\ life_wfb (life_run_gen set_status_from_finalized_only l ops) = false.
+Proof. exact manager_cleared_only_from_finalized_refuted. Qed.
+Print Assumptions C12_manager_cleared_only_from_finalized_refuted.
+
+Theorem C12_surviving_manager_refuted : exists c o,
+  cfg_wfb c = false /\ c_rights c = 0%N /\ c_status c = SActive /\
+  decide c o = Done /\ req_met c (documented o (c_status c) (c_type c)) = false.
+Proof. exact surviving_manager_refuted. Qed.
+Print Assumptions C12_surviving_manager_refuted.
 
 (** The code before fix 374f3de02 ([decide_prefix]: no positivity test in
     accountControlsAllSupply) violates it: a caller with no rights at all changes the access list of
@@ -30,7 +56,7 @@ Proof. exact zero_supply_prefix_refuted. Qed.
 Print Assumptions C12_zero_supply_prefix_refuted.
 
 (** The same, by exhaustive computation over the stated finite domain
-    [all_cfgs] = 5 statuses x 2 types x 256 right masks x 2^5 flags, and all 15 endpoints. *)
+    [all_cfgs] = 5 statuses x 2 types x 256 right masks x 2^6 flags, and all 15 endpoints. *)
 Theorem C12_table_exhaustive :
   forallb (fun c => forallb (table_ok c) all_ops) all_cfgs = true.
 Proof. exact table_ok_everywhere. Qed.
@@ -113,7 +139,7 @@ Print Assumptions C12_unfixed_accept_refuted.
     transfer out of a signed account goes through and one out of a module account does not. *)
 Example C12_witness :
   decide {| c_status := SActive; c_type := TRestricted; c_rights := 16; c_manager := false; c_gov := false;
-            c_govctl := true; c_allsupply := false; c_supply_zero := false |} OCancel = Done /\
+            c_govctl := true; c_allsupply := false; c_supply_zero := false; c_activated := true |} OCancel = Done /\
   (let g := {| g_limit := [(1%N, 10)]; g_allow := [1%N] |} in
    let u to a := {| m_to := to; m_denom := 1%N; m_amt := a |} in
    let '(tr, s) := run {| gs_grant := Some g; gs_bal := [(1%N, 100)] |} [u 1%N 3; u 2%N 3; u 1%N 3; u 1%N 5; u 1%N 4] in
